@@ -5,15 +5,39 @@ ROOT = os.path.dirname(os.path.dirname(os.path.abspath(__file__)))
 
 # id -> (built, technique, level text, level note, design ref)
 CHECKS = {
+
+ "C01": (True, "runtime oracle: real searches (all algorithms/orientations/directions) on generated networks; structural route/tree checker over the generator's edge list",
+         "Runs the real SearchAlgorithm entry points on sampled networks and queries and checks every returned route (contiguity, endpoints, no repeated edge, non-empty) and every returned tree (edge joins parent to child in search direction, parents lead to the root without revisits) against the generator's own edge list.",
+         "generator's RefNet is the source of truth; edge-oriented endpoint clause read in its weakest form; reverse x edge/ksp not driven (undefined in the code)", "3.1"),
+ "C02": (True, "runtime oracle: real Dijkstra/A* vs reference Dijkstra over independently computed per-edge costs; pop-order invariant via hook events",
+         "Runs real Dijkstra and A* (weight factor <= 1 on metric networks) on sampled networks, unit combinations, weights, rates and surcharges; the route cost must equal a reference shortest-path cost computed from the generator's own weights/rates, both algorithms must agree, and Dijkstra pops must be monotone (Pop hook events).",
+         "per-edge state change measured by one real traverse_edge; state-dependent worlds skipped (precondition); 1e-9 tolerance; app-level override slice in the application monitors", "3.2"),
+ "C03": (True, "runtime oracle: every returned route re-accumulated from generator tables with an SI unit table (distance, time incl. turn delays, per-edge cost, monotonicity, initials)",
+         "Every route returned by any algorithm on sampled networks/unit configurations/heading and delay tables is recomputed edge by edge from the generator's tables with independent SI factors and compared at 0.1 % (costs at 1e-9).",
+         "SI table and independent turn classification in the harness; edge-oriented terminal edges may contribute nothing or their true traversal", "3.3"),
+ "C04": (True, "runtime oracle: real frontier models built via their services; routes/trees compared with raw restriction inputs; Relax-after-FrontierReject hook invariant",
+         "Runs searches under the real road-class, vehicle-restriction, turn-restriction, combined and edge-cut frontier models on sampled inputs; no route/tree edge may be forbidden by an independent evaluation of the raw inputs and no consecutive route edges may be a listed turn.",
+         "independent SI comparison with >=1 % margins; origin/destination edges of edge-oriented queries exempt", "3.4"),
+ "C05": (True, "runtime oracle: real searches on disconnected/restricted networks vs BFS/Dijkstra reachability over permitted edges",
+         "Runs Dijkstra/A* (any weight factor), both orientations and directions, with and without destination, on networks with several blocks and edge-local restrictions; Ok/NoPath must match reference reachability, destination-less trees must equal the reachable set with least-cost labels.",
+         "reference BFS/Dijkstra in the harness; origin/destination edges drawn from the permitted set", "3.5"),
  "C07": (True, "runtime oracle: real CostModel / EdgeTraversal on sampled configurations and state pairs vs independent closed formula; live relaxations watched through hooks in the search monitors",
          "Calls the real cost model (traversal/access/estimate) and EdgeTraversal::forward/reverse_traversal on sampled weight/rate/surcharge/aggregation setups and finite state pairs incl. zero and negative deltas; positivity, the sum formula, linearity in the weights and zero-weight neutrality are asserted per call.",
          "closed formula written in the harness; surcharges weighted by their feature weight; magnitudes bounded (|state|<=1e6)", "3.7"),
  "C09": (True, "runtime oracle over all unit pairs/triples (exhaustive pairs, sampled magnitudes) vs independent SI table",
          "Runs the real *Unit::convert and Time/Speed/Energy::create on every ordered unit pair and unit triple with sampled magnitudes; an independent SI table and algebraic identities decide. Exhaustive in the unit dimension, sampled in magnitude.",
          "trusts the SI factors written in the harness and f64 arithmetic; energy units only get identity/linearity/round-trip", "3.9"),
+
+ "C10": (True, "runtime monitor over hook events (LoopTop/Pop/SearchEnd): limit sweeps per query vs unlimited reference run; one-sided timing checks for runtime limits",
+         "For sampled queries the unlimited run is compared with complete sweeps of the iteration and solution-size limits, random combined limits and runtime budgets (zero, and expiring mid-search with a sleeping traversal model): expansion counts, tree sizes, termination messages, identity of results, monotonicity and no work after termination are asserted from hook events.",
+         "expansion = popped vertex; runtime checks one-sided (250 ms slack) so load cannot alarm", "3.10"),
  "C11": (True, "model-based runtime monitor: random operation histories on the real container / StateModel vs insertion-ordered reference, full read API after every step",
          "Drives the real CompactOrderedHashMap and StateModel through sampled construction/extension/insert/overwrite histories and named get/set/add sequences; an insertion-ordered Vec reference and slot-isolation assertions decide after every step.",
          "reference map semantics (first position, last value); private IndexedEntry fields read via Debug", "3.11"),
+
+ "C13": (True, "runtime oracle under logical loop budgets (KspOuter/KspInner hook events): count, optimality, validity, distinctness, similarity, accept-all comparison, reachability",
+         "Runs both k-shortest-path algorithms on sampled networks and configurations under logical step budgets; route count, first-route optimality, walk/loop/accumulation validity, pairwise distinctness and similarity, accept-all >= threshold counts, and error-vs-reachability are asserted per call.",
+         "budgets 4-8x the legitimate loop bounds; optimality only for admissible underlying searches", "3.13"),
  "C17": (True, "runtime oracle: real GridSearchPlugin and apply_input_plugins on sampled query/grid shapes vs nested-loop product (multiset comparison)",
          "Runs the real grid-search plugin, alone and through the application's plugin pipeline with flattening, on sampled queries; the multiset of generated queries is compared with an independent odometer product.",
          "canonical-JSON multiset comparison; object choices use axis-private keys", "3.17"),
